@@ -12,6 +12,7 @@ import (
 
 	"verif/harness/core"
 	"verif/harness/plugin"
+	"verif/harness/rapidx"
 	"verif/harness/schema"
 )
 
@@ -210,7 +211,7 @@ func runC15(c *core.Ctx) error {
 	for k := 0; k < chunks; k++ {
 		var last *c15Case
 		n := 0
-		res := core.RapidCheck("C15", total/chunks, uint64(c.SubSeed(k)), 45*time.Second, func(t *rapid.T) {
+		res := rapidx.Check("C15", total/chunks, uint64(c.SubSeed(k)), 45*time.Second, func(t *rapid.T) {
 			s := schema.Generate(t, prof, "a0001")
 			other := schema.Generate(t, schema.ProfilePlain(avoid), "b0002")
 			// keep service names distinct so per-service OpenAPI files do not collide across packages
